@@ -133,13 +133,19 @@ namespace sqf::parser::sqf
                     // Check if line comment start
                     if (len_ident_match(iter, "#line"))
                     {
-                        iter += 6;
+                        iter += 5;
+                        if (iter != m_end) { ++iter; }
 
-                        // Read in line num
+                        // Read in line num (digits only, anything else leaves the line untouched)
                         auto start = iter;
-                        for (; iter != m_end && *iter != '\n' && *iter != ' '; iter++);
-                        std::string str_tmp(start, iter);
-                        m_line = static_cast<size_t>(std::stoul(str_tmp));
+                        size_t line_num = 0;
+                        bool line_valid = iter != m_end && *iter >= '0' && *iter <= '9';
+                        for (; iter != m_end && *iter != '\n' && *iter != ' '; iter++)
+                        {
+                            if (*iter >= '0' && *iter <= '9' && line_num < 100000000) { line_num = line_num * 10 + (size_t)(*iter - '0'); }
+                            else { line_valid = false; }
+                        }
+                        if (line_valid) { m_line = line_num; }
 
                         // Try skip to file
                         iter += len_match<' ', '\t'>(iter);
